@@ -13,7 +13,7 @@ dep = ('cmp', operand, op, operand) | ('ref', ref)
 operand = ('act', ref, path) | ('var', g, path) | ('lit', shape, tag)
 op = {'incl': ('include'|'exclude', list|None), 'defaults': [(attr, shape)], 'edges': [(attr, ref)], 'appends': (ref, path)|None}
 """
-import copy, random, json
+import hashlib, copy, random, json
 
 KINDS = ["party", "type", "promise", "action", "checkpoint", "group"]
 COQ_KIND = {"party": "RParty", "type": "RType", "promise": "RPromise", "action": "RAction",
@@ -632,6 +632,9 @@ class Renderer:
         if GHOST <= i < GHOST + 1000:
             # a reference qualified by a schema that is not imported; its local part is spelled like the native
             # reference it was derived from (so it would resolve if the qualifier were ignored)
+            if not hasattr(self, "ghost_used"):
+                self.ghost_used = set()
+            self.ghost_used.add(GHOST_FILES[i % len(GHOST_FILES)])
             return "schema:{%s}.%s" % (GHOST_FILES[i % len(GHOST_FILES)], self.ref((kind, i - GHOST), force))
         mode = force or self.spelling
         if mode == "mixed":
@@ -756,6 +759,11 @@ class Renderer:
             doc = {k: doc[k] for k in keys}
         if self.descriptive and rng.random() < 0.5:
             doc["zzz_unknown_property"] = {"anything": [1, 2, 3]}
+        if getattr(self, "ghost_used", None) and int(hashlib.sha1(json.dumps(sorted(self.ghost_used)).encode()).hexdigest(), 16) % 2 == (len(doc["actions"]) % 2):
+            # the document itself carries an "imported_schemas" property (an unknown property for the specification:
+            # what it holds is not an import) in which the unloaded schema's entities could be found
+            carried = copy.deepcopy(doc)
+            doc["imported_schemas"] = {f: copy.deepcopy(carried) for f in sorted(self.ghost_used)}
         return doc
 
 
